@@ -124,9 +124,10 @@ def main():
         known = [k for k in load_known() if k.get("property") == prop]
         not_decided = []
         for res in results:
-            if res.status == "inconclusive" and res.h.optional and (
-                    "wall cap" in res.reason or "out of memory" in res.reason or "ran out of memory" in res.reason
-                    or "no verdict" in res.reason):
+            if res.status == "inconclusive" and res.h.optional:
+                # a deep (thorough-only) harness that did not reach a verdict - wall cap, memory, a per-loop
+                # bound that turned out too small (unwinding assertion), a construct Kani cannot encode, an
+                # unsatisfied witness - is outside the claim of this run and says so; it never counts as held
                 res.status = "not_decided"
                 not_decided.append(res)
             elif res.status == "inconclusive":
